@@ -1334,8 +1334,10 @@ def idl_collect(repo, rel, env, consts, common, seen):
         e = re.sub(r"[lLdDbBuU]+$", "", expr) if re.fullmatch(r"[+-]?\d+[lLbBuU]*", expr) else expr
         if re.fullmatch(r"[+-]?\d+", e):
             v = int(e)
-        elif re.fullmatch(r"[+-]?(\d+\.\d*|\.\d+|\d+)([eEdD][+-]?\d+)?", e):
-            lit = re.sub(r"[dD]", "e", e)
+        elif re.fullmatch(r"[+-]?(\d+\.\d*|\.\d+|\d+)([eEdD][+-]?\d*)?", e) and not re.search(r"[eE]$", e):
+            # IDL: 1.5D and 1.5D0 are double-precision literals (a bare trailing D means exponent 0)
+            lit = re.sub(r"[dD]$", "", e)
+            lit = re.sub(r"[dD]", "e", lit)
             v = float(lit)
         elif re.fullmatch(r"[A-Za-z_]\w*", e):
             v = env.get(e.upper())
